@@ -60,12 +60,16 @@ func runSelfTest(prop string, ps *PropSpec, repo string, seed int, p *Prog) map[
 		}
 		dirs = append(dirs, d)
 	}
-	child := func(wdir string) (int, string) {
+	child := func(wdir string, allLabels bool) (int, string) {
 		ctx, cancel := context.WithTimeout(context.Background(), 25*time.Minute)
 		defer cancel()
 		cmd := exec.CommandContext(ctx, filepath.Join(vdir, "bin", "govc"), "check", prop, "--tier", "quick")
 		cmd.Dir = vdir
 		cmd.Env = append(os.Environ(), "GOVC_CHILD=1", "VERIF_REPO="+wdir, "VERIF_OUT="+wdir+".out", "VERIF_TIER=quick")
+		if allLabels {
+			// mutants: does any clause of these functions' contracts (whatever property it is labelled for) notice?
+			cmd.Env = append(cmd.Env, "GOVC_ALL_LABELS=1")
+		}
 		out, err := cmd.CombinedOutput()
 		_ = os.RemoveAll(wdir + ".out")
 		code := 0
@@ -121,7 +125,7 @@ func runSelfTest(prop string, ps *PropSpec, repo string, seed int, p *Prog) map[
 					if out, err := ap.CombinedOutput(); err != nil {
 						r["status"] = "patch does not apply: " + strings.TrimSpace(string(out))
 					} else {
-						code, first := child(wdir)
+						code, first := child(wdir, false)
 						r["check_exit"] = code
 						r["first"] = first
 						if code == 1 {
@@ -263,7 +267,7 @@ func runSelfTest(prop string, ps *PropSpec, repo string, seed int, p *Prog) map[
 						m.Status = "does not compile"
 						_ = out
 					} else {
-						code, first := child(wdir)
+						code, first := child(wdir, true)
 						switch code {
 						case 1:
 							m.Status = "reported: " + first
@@ -303,6 +307,7 @@ func runSelfTest(prop string, ps *PropSpec, repo string, seed int, p *Prog) map[
 	rep["mutants_reported"] = reported
 	rep["mutant_survivors"] = survivors
 	rep["mutants"] = all
+	rep["mutants_note"] = "a mutant counts as reported when any clause of the contracts of the property's functions fails, including clauses labelled for another property (those are what that property's own check verifies)"
 	rep["mutation_operators"] = "comparison and boolean/arithmetic operator swap, dropped negation, negated if-condition, dropped call statement, integer literal + 1; sampled with VERIF_SEED from the functions listed for the property"
 	rep["wall_s"] = time.Since(t0).Seconds()
 	return rep
